@@ -1,7 +1,7 @@
 (* C12 — partition consumer: progress of the shutdown.  After AsyncClose/Close (dying closed) a state in which
    no step is enabled is final: dispatcher, feeder, subscription manager and subscription consumer have all
    returned and messages / errors are closed.  (Deadlock freedom; the other half of termination — no
-   infinite run — is not proved for this model: see the Definition at the end.) *)
+   infinite run — is PConsMeasure.v / PConsTerminates.v.) *)
 From Coq Require Import List Arith Bool Lia.
 From SV Require Import C12.Lts C12.LtsProofs C12.Tac C12.PCons C12.PConsProofs C12.PConsInv1 C12.PConsInv2 C12.PConsSafety.
 Import ListNotations.
